@@ -115,12 +115,26 @@ def main():
         if bad:
             break
     if not bad:
+        # tag soup: elements left open and closed implicitly by an enclosing end tag, stray end tags
+        soup = []
+        for a in ('div', 'p', 'ul'):
+            for b in ('p', 'li', 'span'):
+                for mid in ('', 'text', '<br>', '<span>x</span>'):
+                    soup.append('<%s><%s>a</%s>%s</%s>' % (a, b, a, mid, b))
+                    soup.append('<%s><%s>a</%s>%s' % (a, b, a, mid))
+        soup += ['<ul><li>a<ul><li>b</ul></li></ul>', '<p><div><p>x</div></p>', '<a><b><c>x</a>y</c>z</b>']
+        for d in soup:
+            check(d, 'soup')
+            if bad:
+                break
+    if not bad:
         for d in docs_grammar(rnd, 1500 if maxlen <= 4 else 6000):
             check(d, 'grammar')
             if bad:
                 break
     print(json.dumps({'cases': cases, 'distinct': distinct, 'violation': bad,
                       'non_template_errors': crashes[:5], 'n_non_template_errors': len(crashes),
+                      'unexpected_crashes': [c for c in crashes if 'Undefined namespace prefix' not in c[1]][:5],
                       'bound': 'all strings over %r up to length %d + grammar documents (seed %d)'
                                % (alphabet, maxlen, seed)}))
 
